@@ -324,7 +324,8 @@ func c12CidrLines(sink *vlib.Out, emit c12Emit) {
 
 func c12CidrGrid(sink *vlib.Out, emit c12Emit) {
 	n := 0
-	for _, ones := range []int{8, 15, 16, 23, 24, 25, 28, 30, 31, 32} {
+	// prefix length 0 (IPv4-mapped: 96) leaves 32 host bits: 2^32 addresses, a count that does not fit a uint32
+	for _, ones := range []int{0, 1, 8, 15, 16, 23, 24, 25, 28, 30, 31, 32} {
 		hostBits := uint(32 - ones)
 		hostMask := uint32(uint64(1)<<hostBits - 1)
 		net0 := uint32(0x0a400000) &^ hostMask
